@@ -197,6 +197,18 @@ func strLeaves() func() interface{} {
 	return func() interface{} { n++; return "v" + strconv.Itoa(n) }
 }
 
+// mixLeaves: numbered string leaves with every third leaf a JSON null.
+func mixLeaves() func() interface{} {
+	n := 0
+	return func() interface{} {
+		n++
+		if n%3 == 0 {
+			return nil
+		}
+		return "v" + strconv.Itoa(n)
+	}
+}
+
 // hasListInList reports whether v contains a list directly inside a list.
 func hasListInList(v interface{}) bool {
 	switch t := v.(type) {
